@@ -174,8 +174,7 @@ class Runner:
         if k == "abort":
             return "cc:1"
         if k == "onMessage":
-            comp = 0
-            return "m:%s:%d:%d" % (hexs(e[1]), int(e[2]), int(getattr(ep, "last_compressed", 0)))
+            return "m:%s:%d:%d" % (hexs(e[1]), int(e[2]), int(e[3]))
         if k == "onPing":
             return "pi:" + hexs(e[1])
         if k == "onPong":
